@@ -301,15 +301,43 @@ def gen_history(rng, hid, tier, n_ops=None, style=None):
         return {"k": "mk_op", "dom": 0, "act": act.name, "ai": a, "args": args,
                 "objs": (rng.randrange(8) if rng.random() < 0.8 else None)}
 
+    def joint_members(idle=None):
+        """a joint action of 0-3 members: acting members and nops in any mix - nobody (empty list), only nops, one acting
+        member (with or without nops around it), several acting members"""
+        shape = rng.choice(["empty", "idle", "idle", "one", "one", "one", "several", "several", "mixed", "mixed"]) if idle is None else \
+            ("idle" if idle else rng.choice(["one", "several", "mixed"]))
+
+        def acting():
+            a = rng.randrange(len(main.actions))
+            act = main.actions[a]
+            return {"ai": a, "act": act.name, "args": [rng.choice(objs_of(t)) for _, t in act.params]}
+        if shape == "empty":
+            return []
+        if shape == "idle":
+            return [{"nop": True} for _ in range(rng.randint(1, 3))]
+        if shape == "one":
+            ms = [acting()] + [{"nop": True} for _ in range(rng.randint(0, 2))]
+        elif shape == "several":
+            ms = [acting() for _ in range(rng.randint(2, 3))]
+        else:
+            ms = [acting(), acting() if rng.random() < 0.5 else {"nop": True}, {"nop": True}]
+        rng.shuffle(ms)
+        return ms
+
+    def ma_plan():
+        steps = [joint_members(idle=(rng.random() < (0.35 if i == 0 else 0.2))) for i in range(rng.randint(2, 4))]
+        return {"k": "ma_plan", "dom": 0, "objs": rng.randrange(16), "steps": steps, "allow": rng.random() < 0.4,
+                "allow_exporter": rng.random() < 0.2}
+
     ops.append(mk_op())
-    weights = {"sim": [("apply", 30), ("applicable", 10), ("mk_op", 10), ("triplet", 8), ("plan", 6), ("export_traj", 4),
+    weights = {"sim": [("joint", 12), ("ma_triplet", 5), ("ma_plan", 5), ("ma_export_traj", 3), ("apply", 30), ("applicable", 10), ("mk_op", 10), ("triplet", 8), ("plan", 6), ("export_traj", 4),
                        ("ground", 3), ("copy", 4), ("serialize", 6), ("typed_serialize", 2), ("state_objects", 2),
                        ("state_eq", 2), ("str_op", 4), ("str_action", 5), ("export", 6), ("export_problem", 4),
                        ("str_domain", 2), ("parse_problem", 3), ("parse_traj", 5), ("convert_plan", 4)],
-               "domains": [("parse_domain", 14), ("new_domain", 10), ("combine", 14), ("shallow_copy", 8), ("export", 16),
+               "domains": [("joint", 4), ("parse_domain", 14), ("new_domain", 10), ("combine", 14), ("shallow_copy", 8), ("export", 16),
                            ("str_domain", 4), ("str_action", 6), ("apply", 10), ("mk_op", 5), ("triplet", 4),
                            ("export_problem", 3)],
-               "mixed": [("apply", 20), ("applicable", 6), ("mk_op", 8), ("triplet", 6), ("plan", 5), ("export_traj", 3),
+               "mixed": [("joint", 7), ("ma_triplet", 3), ("ma_plan", 3), ("ma_export_traj", 2), ("apply", 20), ("applicable", 6), ("mk_op", 8), ("triplet", 6), ("plan", 5), ("export_traj", 3),
                          ("copy", 3), ("serialize", 5), ("str_action", 4), ("export", 8), ("export_problem", 3),
                          ("parse_domain", 6), ("new_domain", 5), ("combine", 8), ("shallow_copy", 4),
                          ("parse_problem", 3), ("str_op", 3), ("ground", 2), ("state_eq", 2), ("parse_traj", 3), ("convert_plan", 3)]}[style]
@@ -337,6 +365,18 @@ def gen_history(rng, hid, tier, n_ops=None, style=None):
                 args = [rng.choice(objs_of(t)) for _, t in act.params]
                 calls.append({"ai": a, "args": args, "call": "(%s %s)" % (act.name, " ".join(args))})
             ops.append({"k": "plan", "dom": 0, "objs": rng.randrange(16), "calls": calls, "allow": rng.random() < 0.3})
+        elif k == "joint":
+            ops.append({"k": k, "dom": 0, "st": rng.randrange(16), "objs": (rng.randrange(16) if rng.random() < 0.8 else None),
+                        "members": joint_members(), "allow": rng.random() < 0.45})
+        elif k == "ma_triplet":
+            ops.append({"k": k, "dom": 0, "st": rng.randrange(16), "objs": rng.randrange(16), "members": joint_members(),
+                        "allow": rng.random() < 0.35, "allow_exporter": rng.random() < 0.2})
+        elif k == "ma_plan":
+            ops.append(ma_plan())
+        elif k == "ma_export_traj":
+            if not any(o["k"] == "ma_plan" for o in ops):
+                ops.append(ma_plan())
+            ops.append({"k": k, "maplan": rng.randrange(4)})
         elif k == "export_traj":
             ops.append({"k": k, "plan": rng.randrange(4)})
         elif k == "convert_plan":
@@ -398,6 +438,21 @@ def c_shape(act, args, keys):
     n_pre = len(act.pre_leaves) + sum(len(g["ante"]) for g in act.groups)
     effs = ["(%d, %d)" % (key(t), len(le)) for g in act.groups for (t, le) in g["effs"]]
     return "{| a_pre := %d; a_effs := %s; a_forall := %d |}" % (n_pre, clist(effs), act.n_forall)
+
+
+def c_members(job, keys, members, apps):
+    """a joint action for the model (Model/Store.v `member`): None = nop, Some = the schema's index and shape and the
+    value-level fact "applicable in the state the joint action is applied to" (from the driver's own operators)"""
+    shape = job["_shape"]
+    out, it = [], iter(apps)
+    for m in members:
+        if m.get("nop"):
+            out.append("None")
+            continue
+        act = shape["doms"][0].actions[m["ai"]]
+        out.append("(Some {| mb_act := %d; mb_sh := %s; mb_app := %s |})" % (m["ai"], c_shape(act, m["args"], keys),
+                                                                             cbool(next(it, False) is True)))
+    return clist(out)
 
 
 def c_op(step, job, keys, plans=None):
@@ -468,10 +523,33 @@ def c_op(step, job, keys, plans=None):
             src = res["base_s"] + i
         plans.append((op["objs"], res["base_s"], res["n"]))
         return out
+    if k in ("joint", "ma_triplet", "ma_plan") and failed and res["raised"] != "ValueError":
+        return ["ONop"]
+    # joint-action calls are rendered by the MODEL (Corr/C07.v `render`), from the call's arguments
+    if k == "joint":
+        objs = "None" if op.get("objs") is None else "(Some %d)" % op["objs"]
+        return ("call", "(CJoint %d %d %s %s %s)" % (op["dom"], op["st"], objs, c_members(job, keys, op["members"], res["apps"]),
+                                                     cbool(op.get("allow"))))
+    if k == "ma_triplet":
+        return ("call", "(CMaTriplet %d %d %d %s %s)" % (op["dom"], op["st"], op["objs"],
+                                                         c_members(job, keys, op["members"], res["apps"]),
+                                                         cbool(op.get("allow") or op.get("allow_exporter"))))
+    if k == "ma_plan":
+        # the steps the call got to (the driver's own run of the plan stops at the step that raises)
+        steps = [c_members(job, keys, members, apps) for members, apps in zip(op["steps"], res["apps"])]
+        if not failed:
+            plans.append(("ma", op["objs"], res.get("plan_states", [])))
+        return ("call", "(CMaPlan %d %d %s %s)" % (op["dom"], op["objs"], clist(steps), cbool(op.get("allow") or op.get("allow_exporter"))))
+    if k == "ma_export_traj":
+        if failed:
+            return ["ONop"]
+        ma = [p for p in plans if p[0] == "ma"]
+        _, pj, states = ma[op["maplan"]]
+        return ["(OReadState %d)" % pj] + ["(OReadState %d)" % x for x in states]
     if k == "export_traj":
         if failed:
             return ["ONop"]
-        pj, base, n = plans[op["plan"]]
+        pj, base, n = [p for p in plans if p[0] != "ma"][op["plan"]]
         return ["(OReadState %d)" % pj] + ["(OReadState %d)" % (base + i) for i in range(n)]
     if k == "convert_plan":
         # reads the schema and the problem (its simulation runs on temporaries: operators and successor states nobody keeps)
@@ -481,7 +559,7 @@ def c_op(step, job, keys, plans=None):
         # OCopy per `previous_state = next_state.copy()` whose result is kept (all but the last)
         if failed:
             return ["ONop"]
-        pj, base, n = plans[op["plan"]]
+        pj, base, n = [p for p in plans if p[0] != "ma"][op["plan"]]
         out = ["(OReadState %d)" % pj] + ["(OReadState %d)" % (base + i) for i in range(n)]
         ks = lambda names: clist(str(keys.setdefault(x, len(keys))) for x in names)
         idx, fl = res["base_s"], res["fluents"]
@@ -510,16 +588,15 @@ def history_case(job, res, cfg):
         if sharing is None:       # skipped step: the sharing graph is that of the previous step
             sharing = prev_sharing(res["steps"], st)
         mops = c_op(st, job, keys, plans)
-        for j, mop in enumerate(mops):
-            last = j == len(mops) - 1
-            steps.append("{| so_op := %s; so_observed := %s; so_changed := %s; so_sharing := %s |}" % (
-                mop, cbool(last), clist(c_owner(n) for n in changed) if last else "[]",
-                clist("(%s, %s)" % (c_owner(a), c_owner(b)) for a, b, _ in sharing if not (a[0] == "O" and b[0] == "O")) if last else "[]"))
+        call = mops[1] if isinstance(mops, tuple) else "(CSeq %s)" % clist(mops)
+        steps.append("{| cs_call := %s; cs_changed := %s; cs_sharing := %s |}" % (
+            call, clist(c_owner(n) for n in changed),
+            clist("(%s, %s)" % (c_owner(a), c_owner(b)) for a, b, _ in sharing if not (a[0] == "O" and b[0] == "O"))))
     # what the model has no cell for crosses as part of the repeat verdict: answers / values of the independent world,
     # objects shared with it (the process-wide statics are part of the module root M, i.e. of so_changed)
     repeat_ok = (not res["repeat_mismatch"] and not res["repeat_changed"] and not res["module_leak"] and not res.get("indep")
                  and not res.get("twin_mismatch"))
-    return "{| c_cfg := %s; c_steps := %s; c_repeat_ok := %s; c_thread := None |}" % (
+    return "{| c_cfg := %s; c_calls := %s; c_repeat_ok := %s; c_thread := None |}" % (
         c_cfg(cfg), clist(steps), cbool(repeat_ok))
 
 
@@ -537,7 +614,7 @@ def thread_case(res, cfg):
     """real threads: only the verdict of the differential run crosses"""
     ok = (res.get("n_diffs") == 0 and res.get("n_foreign") == 0 and res.get("domain_changed_rounds") == 0
           and not res.get("module_leak"))
-    return ("{| c_cfg := %s; c_steps := []; c_repeat_ok := true; c_thread := Some {| t_ok := %s; t_prefix := []; "
+    return ("{| c_cfg := %s; c_calls := []; c_repeat_ok := true; c_thread := Some {| t_ok := %s; t_prefix := []; "
             "t_threads := []; t_sched := [] |} |}" % (c_cfg(cfg), cbool(ok)))
 
 
@@ -575,7 +652,7 @@ def sched_case(job, res, cfg):
             sample.append(ev)
             last = ev
     prefix = "[OParseDomain %s %d]" % (cbool(main.typed), len(main.actions))
-    return ("{| c_cfg := %s; c_steps := []; c_repeat_ok := true; c_thread := Some {| t_ok := %s; t_prefix := %s; "
+    return ("{| c_cfg := %s; c_calls := []; c_repeat_ok := true; c_thread := Some {| t_ok := %s; t_prefix := %s; "
             "t_threads := %s; t_sched := %s |} |}" % (c_cfg(cfg), cbool(sched_ok_py(res)), prefix, clist(threads),
                                                       clist(sample[:150])))
 
